@@ -71,6 +71,17 @@ CLAIMS = {
         "note": "CUDA kernels out of scope. numba is trusted to compile the Python kernels faithfully (np.ceil/floor, range, % semantics). The Bessel polynomial is compared as text-independent exact rationals; "
                 "its approximation quality is the cited reference's.",
     },
+    "C08": {
+        "engine": "E3 value numbering, loop-nest summaries, E4 shape summaries",
+        "category": "other",
+        "technique": "static analysis: canonical-term comparison of _get_convolve_params with its documented form on every path; per-path constant propagation of the adjoint mode and buffer size; loop-nest summaries of the three CPU convolution routines; who-passes-what at all call sites; shape-term agreement of all producers",
+        "text": "Decides that the output-length formulas, channel/stride/orientation rejections of _get_convolve_params are the documented ones, that every call site passes (data-side, filter-side) "
+                "shapes in this order, that all four operators and the forward routine advertise b + (c_o,) + p / b + p from that helper, that the adjoint correlation mode follows the exact table "
+                "over {full, valid with data >= filter, valid with data < filter} for both adjoints with the unstrided buffer size, and that the loops accumulate convolve(...)[slc] in the forward and "
+                "the conjugating correlate on the buffer zero-stuffed at the same stride slice in the adjoints, with consistent (batch, c_o, c_i) indexing. All shapes, strides, channels and values are covered.",
+        "design_ref": "DESIGN.md section 4 C08",
+        "note": "scipy.signal.convolve/correlate are trusted (correlate conjugates its second argument). cuDNN paths are out of scope.",
+    },
     "C09": {
         "engine": "E3 value numbering, kernel loop-nest summaries, role inference for dispatch (axis tags)",
         "category": "other",
